@@ -2,4 +2,5 @@ let () =
   match Array.to_list Sys.argv with
   | _ :: "enc" :: _ -> D_enc.run ()
   | _ :: "tree" :: _ -> D_tree.run ()
+  | _ :: "conf" :: _ -> D_conf.run ()
   | _ -> prerr_endline "usage: driver <area> < ops"; exit 2
